@@ -391,6 +391,221 @@ class _InlineExprHelpers(ast.NodeTransformer):
         return node
 
 
+# -- C6b: statement-level inlining of private helpers ------------------------------------------------
+def _tail_returns_only(body):
+    """All `return` statements are in tail position (last statement of the body, or of a branch / try part
+    that is itself last): then `return E` can be read as `result = E` followed by the end of the block."""
+    def tail_ok(stmts, tail):
+        for i, st in enumerate(stmts):
+            last = tail and i == len(stmts) - 1
+            if isinstance(st, ast.Return):
+                if not last:
+                    return False
+            elif isinstance(st, ast.If):
+                if not tail_ok(st.body, last) or not tail_ok(st.orelse, last):
+                    return False
+            elif isinstance(st, ast.Try):
+                if st.finalbody and _has(ast.Module(body=st.finalbody, type_ignores=[]), ast.Return):
+                    return False
+                if not tail_ok(st.body, last and not st.orelse) or not tail_ok(st.orelse, last):
+                    return False
+                for h in st.handlers:
+                    if not tail_ok(h.body, last):
+                        return False
+            elif isinstance(st, (ast.For, ast.While, ast.With)):
+                if _has(st, ast.Return):
+                    return False
+            elif isinstance(st, (ast.FunctionDef, ast.ClassDef)):
+                return False
+        return True
+    return tail_ok(body, True)
+
+
+def _stmt_helpers(tree):
+    out = {}
+
+    def consider(key, f, drop_first=False):
+        if f.decorator_list and not all(isinstance(d, ast.Name) and d.id in ('staticmethod', 'classmethod') for d in f.decorator_list):
+            return
+        if _simple_params(f) is None or _has(f, (ast.Yield, ast.YieldFrom, ast.Await, ast.Global, ast.Nonlocal, ast.Lambda)):
+            return
+        body = _strip_doc(f.body)
+        if not body or len(body) > 25 or not _tail_returns_only(body):
+            return
+        if any(isinstance(n, ast.Name) and n.id == f.name for n in ast.walk(ast.Module(body=body, type_ignores=[]))):
+            return
+        out[key] = (f, body, drop_first)
+    for st in tree.body:
+        if isinstance(st, ast.FunctionDef) and st.name.startswith('_') and not st.name.startswith('__'):
+            consider(('mod', st.name), st)
+        if isinstance(st, ast.ClassDef):
+            for m in st.body:
+                if isinstance(m, ast.FunctionDef) and m.name.startswith('_') and not m.name.startswith('__'):
+                    decs = [d.id for d in m.decorator_list if isinstance(d, ast.Name)]
+                    if 'staticmethod' in decs:
+                        consider(('cls', st.name, m.name), m)
+                    elif 'classmethod' in decs:
+                        consider(('cls', st.name, m.name), m, drop_first=True)
+    return out
+
+
+class _Rename(ast.NodeTransformer):
+    def __init__(self, m):
+        self.m = m
+
+    def visit_Name(self, n):
+        if n.id in self.m:
+            v = self.m[n.id]
+            if isinstance(v, str):
+                return ast.copy_location(ast.Name(id=v, ctx=n.ctx), n)
+            if isinstance(n.ctx, ast.Load):
+                return copy.deepcopy(v)
+        return n
+
+
+def _stored_names(stmts):
+    out = set()
+    for st in stmts:
+        for n in ast.walk(st):
+            if isinstance(n, ast.Name) and isinstance(n.ctx, (ast.Store, ast.Del)):
+                out.add(n.id)
+            elif isinstance(n, ast.ExceptHandler) and n.name:
+                out.add(n.name)
+    return out
+
+
+def _simple_arg(a):
+    if isinstance(a, (ast.Name, ast.Constant)):
+        return True
+    if isinstance(a, ast.Attribute):
+        return _simple_arg(a.value)
+    return False
+
+
+def _inline_stmt_helpers(fn, helpers, cls):
+    """Replace `helper(args)`, `x = helper(args)`, `a, b = helper(args)`, `return helper(args)` statements
+    by the helper's body (locals named after the call's targets where the helper returns plain names)."""
+    caller_names = {n.id for n in ast.walk(fn) if isinstance(n, ast.Name)} | {a.arg for a in fn.args.args}
+    counter = [0]
+
+    def key_of(call):
+        f = call.func
+        if isinstance(f, ast.Name):
+            return ('mod', f.id)
+        if isinstance(f, ast.Attribute) and isinstance(f.value, ast.Name):
+            if f.value.id in ('self', 'cls') and cls:
+                return ('cls', cls, f.attr)
+            return ('cls', f.value.id, f.attr)
+        return None
+
+    def expand(st):
+        call, mode, targets = None, None, None
+        if isinstance(st, ast.Expr) and isinstance(st.value, ast.Call):
+            call, mode = st.value, 'expr'
+        elif isinstance(st, ast.Assign) and len(st.targets) == 1 and isinstance(st.value, ast.Call):
+            call, mode, targets = st.value, 'assign', st.targets[0]
+        elif isinstance(st, ast.Return) and isinstance(st.value, ast.Call):
+            call, mode = st.value, 'return'
+        if call is None:
+            return None
+        k = key_of(call)
+        if k not in helpers:
+            return None
+        f, body, drop = helpers[k]
+        env = _bind_args(f, call, drop_first=drop)
+        if env is None:
+            return None
+        body = copy.deepcopy(body)
+        stored = _stored_names(body)
+        # names returned by the helper (when it returns plain names / a tuple of plain names)
+        rets = [n for n in ast.walk(ast.Module(body=body, type_ignores=[])) if isinstance(n, ast.Return)]
+        ren = {}
+        if mode == 'assign' and rets:
+            tnames = [targets] if isinstance(targets, ast.Name) else (list(targets.elts) if isinstance(targets, (ast.Tuple, ast.List)) else None)
+            for r in rets:
+                rv = r.value
+                rnames = [rv] if isinstance(rv, ast.Name) else (list(rv.elts) if isinstance(rv, ast.Tuple) else None)
+                if tnames and rnames and len(tnames) == len(rnames):
+                    for t, v in zip(tnames, rnames):
+                        if isinstance(t, ast.Name) and isinstance(v, ast.Name) and (v.id in stored or v.id in env):
+                            ren.setdefault(v.id, t.id)
+        pre = []
+        counter[0] += 1
+        for p_, a_ in env.items():
+            if p_ in ren and isinstance(a_, ast.Name) and a_.id == ren[p_]:
+                continue                       # x, i = helper(.., i): the helper's i is the caller's i
+            if p_ in stored or not _simple_arg(a_):
+                # the helper rebinds its parameter, or the argument is a computed value: keep a local for it
+                nm = p_ if (p_ not in caller_names and p_ not in ren.values()) else '_h%d_%s' % (counter[0], p_)
+                if p_ in ren:
+                    nm = ren[p_]
+                asg = ast.Assign(targets=[ast.Name(id=nm, ctx=ast.Store())], value=copy.deepcopy(a_))
+                pre.append(ast.copy_location(asg, st))
+                ren[p_] = nm
+            else:
+                ren[p_] = a_
+        for l_ in stored:
+            if l_ not in ren:
+                ren[l_] = l_ if l_ not in caller_names else '_h%d_%s' % (counter[0], l_)
+        R = _Rename(ren)
+        body = [R.visit(b) for b in body]
+
+        def fix_returns(stmts):
+            out = []
+            for b in stmts:
+                if isinstance(b, ast.Return):
+                    if mode == 'return':
+                        out.append(b)
+                    elif mode == 'assign':
+                        tv = b.value if b.value is not None else ast.Constant(value=None)
+                        # `x = x` left over from the renaming is dropped
+                        if isinstance(targets, ast.Name) and isinstance(tv, ast.Name) and tv.id == targets.id:
+                            continue
+                        if isinstance(targets, (ast.Tuple, ast.List)) and isinstance(tv, ast.Tuple) and len(tv.elts) == len(targets.elts) \
+                                and all(isinstance(x, ast.Name) and isinstance(y, ast.Name) and x.id == y.id for x, y in zip(targets.elts, tv.elts)):
+                            continue
+                        out.append(ast.copy_location(ast.Assign(targets=[copy.deepcopy(targets)], value=tv), b))
+                    else:
+                        if b.value is not None and not isinstance(b.value, (ast.Name, ast.Constant)):
+                            out.append(ast.copy_location(ast.Expr(value=b.value), b))
+                    continue
+                for fld in ('body', 'orelse', 'finalbody'):
+                    if hasattr(b, fld) and isinstance(getattr(b, fld), list) and not isinstance(b, (ast.FunctionDef, ast.ClassDef)):
+                        setattr(b, fld, fix_returns(getattr(b, fld)))
+                if isinstance(b, ast.Try):
+                    for h in b.handlers:
+                        h.body = fix_returns(h.body)
+                if isinstance(b, (ast.If,)) and not b.body:
+                    b.body = [ast.copy_location(ast.Pass(), b)]
+                out.append(b)
+            return out
+        new = pre + fix_returns(body)
+        for b in new:
+            for n in ast.walk(b):
+                ast.copy_location(n, st) if not hasattr(n, 'lineno') else None
+                if hasattr(n, 'lineno'):
+                    n.lineno = st.lineno
+                    n.end_lineno = getattr(st, 'end_lineno', st.lineno)
+        return new or [ast.copy_location(ast.Pass(), st)]
+
+    def walk(stmts, depth=0):
+        out = []
+        for st in stmts:
+            rep = expand(st) if depth < 3 else None
+            if rep is not None:
+                out.extend(walk(rep, depth + 1))
+                continue
+            for fld in ('body', 'orelse', 'finalbody'):
+                if hasattr(st, fld) and isinstance(getattr(st, fld), list) and not isinstance(st, (ast.FunctionDef, ast.ClassDef)):
+                    setattr(st, fld, walk(getattr(st, fld), depth))
+            if isinstance(st, ast.Try):
+                for h in st.handlers:
+                    h.body = walk(h.body, depth)
+            out.append(st)
+        return out
+    fn.body = walk(fn.body)
+
+
 def _nested_defs_to_lambdas(fn):
     """C7: a nested `def f(args): return expr` (also as an if-chain of returns) is `f = lambda args: expr`."""
     def rewrite(body):
@@ -456,6 +671,15 @@ def canonicalize(tree):
     helpers = _expr_helpers(tree)
     if helpers:
         _InlineExprHelpers(helpers).visit(tree)
+    sh = {k: v for k, v in _stmt_helpers(tree).items() if k not in helpers}
+    if sh:
+        for st in tree.body:
+            if isinstance(st, ast.FunctionDef):
+                _inline_stmt_helpers(st, sh, None)
+            elif isinstance(st, ast.ClassDef):
+                for m in st.body:
+                    if isinstance(m, ast.FunctionDef):
+                        _inline_stmt_helpers(m, sh, st.name)
     for node in ast.walk(tree):
         if isinstance(node, (ast.FunctionDef, ast.AsyncFunctionDef)):
             _nested_defs_to_lambdas(node)
